@@ -541,6 +541,104 @@ def recursion(P, rep, reach, g=None):
                        "cycle %s re-enters with values it looked up or produced (%s): the total work is bounded by a shared budget — %s" % (name, ns[0], whyb) if okb else
                        "cycle %s re-enters with values it looked up or produced (%s) and only its depth is limited: definitions / macros / files that each use the previous one twice double the work with every level (2^depth) — %s" % (name, ns[0], whyb),
                        detail={"non-structural calls": ns})
+                if okb:
+                    need, okt, whyt = text_growth_bounded(P, comp)
+                    if need:
+                        rep.ob("C16.volume|%s|text" % "+".join(comp), okt, "cycle %s: %s" % (name, whyt) if okt else "cycle %s: %s" % (name, whyt))
+                    need, okv, whyv = volume_budget(P, comp)
+                    if need:
+                        rep.ob("C16.volume|%s" % "+".join(comp), okv,
+                               "cycle %s: %s" % (name, whyv) if okv else
+                               "cycle %s: the work of one round is not bounded — %s (26 calls of a macro of 100 calls of a macro of 100 calls of a macro of 4000 lines: 10^9 items from a 16 KiB source)" % (name, whyv))
+
+
+def _round_helpers(P, comp):
+    """the functions of the cycle and the local helpers (same module tree, not the generated parser) they call in a round, two calls deep"""
+    near = list(comp)
+    frontier = list(comp)
+    for _ in range(2):
+        nxt = []
+        for k in frontier:
+            for bb, t, name, tg in P.call_sites(k):
+                for x in tg:
+                    if x in P.body and x not in near and not x.startswith("document::document::") and "::{closure" not in x and x.split("::")[0] == k.split("::")[0]:
+                        near.append(x)
+                        nxt.append(x)
+        frontier = nxt
+    return near
+
+
+def volume_budget(P, comp):
+    """A budget that counts rounds bounds the work only when a round's work is bounded.  Where a function of the cycle walks a collection
+    it got from a table lookup (a macro body: as long as the source allows), some shared counter must grow with the size of what is
+    walked: a Cell set to a value computed from a len(), checked against a constant with an Err on the failing side.
+    -> (needed, ok, text)"""
+    walks = []
+    # the functions of the cycle and the local helpers they call in a round
+    near = _round_helpers(P, comp)
+    for k in near:
+        b = P.body[k]
+        for bb, t, name, tg in P.call_sites(k):
+            rp = MU.callee_names(t)[1]
+            if not re.search(r"(::iter|::into_iter|::iter_mut)$", rp) or not t["args"]:
+                continue
+            locs, consts, calls, places = MU.backward_slice(b, t["args"][:1])
+            if any(MU.callee_names(c)[1].endswith("HashMap::<K, V, S, A>::get") for c in calls):
+                walks.append(k)
+    if not walks:
+        return False, True, ""
+    for k in comp:
+        b = P.body[k]
+        for bb, t, name, tg in P.call_sites(k):
+            if MU.callee_names(t)[1] != "std::cell::Cell::<T>::set":
+                continue
+            locs, consts, calls, places = MU.backward_slice(b, t["args"][1:2])
+            names = [MU.callee_names(c)[1] for c in calls]
+            sized = any(re.search(r"(Vec::<T, A>|\[T\]>|String|str>)::len$", n) for n in names)
+            if not sized:
+                # the size may be taken inside a closure handed to a combinator (map_or(0, |body| body.len()))
+                for k2 in P.body:
+                    if k2.startswith(k + "::{closure") and any(re.search(r"::len$", MU.callee_names(t2)[1]) for _, t2, _, _ in P.call_sites(k2)):
+                        if any(n.endswith(("::map_or", "::map", "::map_or_else", "::and_then")) for n in names):
+                            sized = True
+            if not sized:
+                continue
+            # the new value is compared with a constant and the failing side is an error
+            limited = False
+            for bl in b["blocks"]:
+                for st in bl["stmts"]:
+                    if st["k"] == "assign" and st["rv"]["k"] == "bin" and st["rv"]["op"] in ("Gt", "Ge", "Lt", "Le") and ("const" in st["rv"]["l"]) != ("const" in st["rv"]["r"]):
+                        side = st["rv"]["l"] if "const" in st["rv"]["r"] else st["rv"]["r"]
+                        l2, c2, calls2, p2 = MU.backward_slice(b, [side])
+                        if (set(l2) & set(locs)) and bl["term"]["k"] == "switch" and _err_exit_sides(P, k, b, bl, comp):
+                            limited = True
+            if limited:
+                return True, True, "%s also steps a shared counter up by the size of what a round walks and checks it against a constant" % k.split("::")[-1]
+    return True, False, "%s walks a collection it looked up (a macro body, as long as the source allows) and nothing counts its size: calls x body lines is not bounded by the budget of calls" % walks[0].split("::")[-1]
+
+
+def text_growth_bounded(P, comp):
+    """Text that a round of the cycle builds by putting other text into it (replace, push_str, repeat, format) and that goes back into
+    the cycle can grow with every level (an argument handed on twice doubles): the functions of a round that build text must compare a
+    text's length with a constant, with an error on the failing side.  -> (needed, ok, text)"""
+    near = _round_helpers(P, comp)
+    grow = re.compile(r"^core::str::<impl str>::(replace|replacen|repeat)$|^std::string::String::(push_str|insert_str|extend)$|^alloc::str::<impl str>::(replace|replacen|repeat)$|^std::str::<impl str>::(replace|replacen|repeat)$")
+    builders = []
+    for k in near:
+        if any(grow.search(MU.callee_names(t)[1]) for _, t, _, _ in P.call_sites(k)):
+            builders.append(k)
+    if not builders:
+        return False, True, ""
+    for k in near:
+        b = P.body[k]
+        for bl in b["blocks"]:
+            for st in bl["stmts"]:
+                if st["k"] == "assign" and st["rv"]["k"] == "bin" and st["rv"]["op"] in ("Gt", "Ge", "Lt", "Le") and ("const" in st["rv"]["l"]) != ("const" in st["rv"]["r"]):
+                    side = st["rv"]["l"] if "const" in st["rv"]["r"] else st["rv"]["r"]
+                    locs, consts, calls, places = MU.backward_slice(b, [side])
+                    if any(re.search(r"(String|str>)::len$", MU.callee_names(c)[1]) for c in calls) and bl["term"]["k"] == "switch" and _err_exit_sides(P, k, b, bl, comp if k in comp else [k]):
+                        return True, True, "%s compares the length of the text it builds with a constant and fails beyond it" % k.split("::")[-1]
+    return True, False, "%s builds text from other text (replace / push_str) for the next round and nothing limits its length: `.macro m / m @0@0 / .endm / m a` doubles the argument with every level" % builders[0].split("::")[-1]
 
 
 def _has_cycle_without(P, comp, k):
@@ -848,6 +946,207 @@ def guard_limits(P, gk):
     return uncapped, per_char
 
 
+def _arms_join(b, sw):
+    """the blocks where the arms of a switch meet again: first blocks that every arm reaches (an arm that leaves the function aside)"""
+    ends = [tb for v, tb in sw["targets"]] + ([sw["otherwise"]] if sw.get("otherwise") is not None else [])
+    back = set(G.back_edges(b))
+    heads = {h for s_, h in back}
+
+    def forward(tb):
+        seen, work = set(), [tb]
+        while work:
+            x = work.pop()
+            if x in seen:
+                continue
+            seen.add(x)
+            work.extend(y for y in G.succs(b, x, False) if (x, y) not in back)
+        return seen
+
+    reach = [forward(tb) for tb in ends]
+    # arms that cannot come back to the loop (they return or diverge) do not take part
+    loopers = [r for r, tb in zip(reach, ends) if any((x, h) in back for x in r for h in heads)]
+    if not loopers:
+        return set()
+    inter = set.intersection(*loopers)
+    pr = G.preds(b)
+    return {x for x in inter if any(q not in inter for q in pr.get(x, []))}
+
+
+def guard_accounts(P, gk, g):
+    """What the guard must keep account of because of what the grammar allows, beyond stepping counters (guard_limits):
+    (a) a counter that a comparison limits and that is set back to 0 on the arm of the opening parenthesis must first have gone into
+        something that stays: the prefix operators in front of a parenthesis are open as long as the parenthesis is;
+    (b) where the grammar lets blanks stand between prefix operators and their operand, a blank must not set such a counter back;
+    (c) what an opening parenthesis adds to the open count depends on the infix operators seen on its level: between two parentheses
+        the precedence-climbing parser is one call deeper for every rising level.
+    -> list of reasons (empty: fine)"""
+    b = P.body[gk]
+    name = lambda l: b["locals"][l].get("name")
+    uncapped, per_char = guard_limits(P, gk)
+    defs = {}
+    for bi, bl in enumerate(b["blocks"]):
+        for st in bl["stmts"]:
+            if st["k"] == "assign" and not st["place"]["proj"]:
+                defs.setdefault(st["place"]["local"], []).append(("stmt", bi, st["rv"]))
+        t = bl["term"]
+        if t["k"] == "call" and t.get("dest") is not None and not t["dest"]["proj"]:
+            defs.setdefault(t["dest"]["local"], []).append(("call", bi, t))
+
+    def names_in_slice(op, depth=12):
+        seen, out, work = set(), set(), [(op, 0)]
+        while work:
+            o, d = work.pop()
+            pl = MU.op_place(o)
+            if pl is None or d > depth:
+                continue
+            l = pl["local"]
+            if name(l):
+                out.add(name(l))
+                if d > 0 and len(defs.get(l, [])) != 1:
+                    continue            # a variable that is assigned again and again: its own history is another step's business
+            if l in seen:
+                continue
+            seen.add(l)
+            for kind, bi, dd in defs.get(l, []):
+                if kind == "stmt":
+                    rv = dd
+                    ops = [rv["op"]] if rv["k"] in ("use", "cast", "un") else ([rv["l"], rv["r"]] if rv["k"] == "bin" else ([{"copy": rv["place"]}] if rv["k"] == "ref" else rv.get("ops", [])))
+                    work.extend((x, d + 1) for x in ops)
+                else:
+                    work.extend((x, d + 1) for x in dd["args"])
+        return out
+
+    # the switch on the character, its arms, the limit checks
+    sw = None
+    for bi, bl in enumerate(b["blocks"]):
+        t = bl["term"]
+        if t["k"] == "switch":
+            pl = MU.op_place(t["discr"])
+            if pl is not None and P.tys(gk, b["locals"][pl["local"]]["ty"]) == "char":
+                sw = (bi, t)
+    if sw is None:
+        return ["the guard does not switch on the characters of the line"]
+    targets = {chr(int(v)): tb for v, tb in sw[1]["targets"]}
+    stops = _arms_join(b, sw[1])
+
+    def arm_blocks(tb):
+        seen, work = set(), [tb]
+        while work:
+            x = work.pop()
+            if x in seen:
+                continue
+            seen.add(x)
+            if x in stops:
+                continue
+            work.extend(G.succs(b, x, False))
+        return seen - stops
+
+    def resets(blocks):
+        out = set()
+        for x in blocks:
+            for st in b["blocks"][x]["stmts"]:
+                if st["k"] == "assign" and not st["place"]["proj"] and name(st["place"]["local"]) and st["rv"]["k"] == "use" and "const" in st["rv"]["op"] and st["rv"]["op"]["const"].get("int") == "0":
+                    out.add(name(st["place"]["local"]))
+        return out
+
+    def amounts(blocks):
+        """names in the slice of what is added to a limited counter, or pushed, in these blocks"""
+        out = set()
+        for x in blocks:
+            # what is added to a counter that a comparison limits (what is merely remembered for later - pushed - limits nothing)
+            tt = b["blocks"][x]["term"]
+            if tt["k"] == "call":
+                rp = MU.callee_names(tt)[1]
+                if rp.endswith("::saturating_add") and (names_in_slice(tt["args"][0], depth=3) & uncapped):
+                    for a in tt["args"][1:]:
+                        out |= names_in_slice(a)
+            for st in b["blocks"][x]["stmts"]:
+                if st["k"] == "assign" and st["rv"]["k"] == "bin" and st["rv"]["op"] in ("AddWithOverflow", "Add") and "const" not in st["rv"]["r"] and \
+                        (names_in_slice(st["rv"]["l"], depth=3) & uncapped):
+                    out |= names_in_slice(st["rv"]["r"])
+        return out
+
+    why = []
+    # counters stepped on infix / prefix arms (from the grammar's tokens)
+    rows = g.prec_table("expr")
+    infix = {r["tokens"][0][0] for r in rows if r["kind"] == "infix" and r["tokens"]}
+    prefix = {r["tokens"][0][0] for r in rows if r["kind"] == "prefix" and r["tokens"]}
+    stepped_on = lambda chars: set().union(*[ps for c in chars for ps in (per_char.get(c) or [])]) if chars else set()
+    prefix_counters = stepped_on(prefix) & uncapped
+    infix_counters = stepped_on(infix - prefix)
+    if "(" in targets:
+        arm = arm_blocks(targets["("])
+        kept = amounts(arm)
+        lost = sorted((resets(arm) & prefix_counters) - kept)
+        if lost:
+            why.append("an opening parenthesis sets %s back to 0 without keeping it: the prefix operators in front of a parenthesis stay open as long as it does (`-(-(-(` ...)" % ", ".join(lost))
+        if infix_counters and not (kept & infix_counters):
+            why.append("an opening parenthesis counts the same whatever stands in front of it on its level: the parser is one call deeper for every precedence level climbed there (`1||1&&1|1^1&1==1<1<<1+1*(` ...), and nothing the infix operators step up (%s) goes into what the parenthesis adds" % sorted(infix_counters))
+    # blanks
+    blank_allowed = any(r["kind"] == "prefix" and any(e[1] == ("call", "space") for e in r["elems"]) for r in rows)
+    def arm_of(c):
+        """the block a character c ends up in once everything that is decided by comparing the character with constants is decided"""
+        chl = MU.op_place(sw[1]["discr"])["local"]
+        same = {chl}
+        refs = set()
+        for _round in range(4):
+            for l, ds in defs.items():
+                for kind, bi, d in ds:
+                    if kind != "stmt":
+                        continue
+                    if d["k"] == "ref" and d["place"]["local"] in same and not d["place"]["proj"]:
+                        refs.add(l)
+                    if d["k"] == "use" and MU.op_place(d["op"]) is not None:
+                        pl_ = MU.op_place(d["op"])
+                        if pl_["local"] in same and not pl_["proj"]:
+                            same.add(l)
+                        if pl_["local"] in refs and [e["k"] for e in pl_["proj"]] == ["deref"]:
+                            same.add(l)
+                        if pl_["local"] in refs and not pl_["proj"]:
+                            refs.add(l)
+        starts = [bi for kind, bi, d in defs.get(chl, [])]
+        x = starts[0] if starts else sw[0]
+        for _ in range(60):
+            bl = b["blocks"][x]
+            t = bl["term"]
+            if x == sw[0]:
+                return targets.get(c, sw[1].get("otherwise"))
+            if t["k"] == "goto":
+                x = t["target"]
+                continue
+            if t["k"] == "switch":
+                dl = MU.op_place(t["discr"])
+                cmp_ = None
+                for st in bl["stmts"]:
+                    if st["k"] == "assign" and dl is not None and st["place"]["local"] == dl["local"] and st["rv"]["k"] == "bin" and st["rv"]["op"] in ("Eq", "Ne"):
+                        l_, r_ = st["rv"]["l"], st["rv"]["r"]
+                        for a_, k_ in ((l_, r_), (r_, l_)):
+                            pa = MU.op_place(a_)
+                            if pa is not None and pa["local"] in same and "const" in k_ and "int" in k_["const"]:
+                                cmp_ = (st["rv"]["op"], chr(int(k_["const"]["int"])))
+                if cmp_ is None:
+                    return x
+                truth = (cmp_[1] == c) == (cmp_[0] == "Eq")
+                tg = dict((str(v), y) for v, y in t["targets"])
+                x = tg.get("1" if truth else "0", t.get("otherwise")) if (("1" if truth else "0") in tg) else t.get("otherwise")
+                if x is None:
+                    return None
+                continue
+            return x
+        return None
+
+    if blank_allowed:
+        for c in (" ", "\t"):
+            tb = arm_of(c)
+            if tb is None:
+                continue
+            bad = sorted(resets(arm_blocks(tb)) & prefix_counters)
+            if bad:
+                why.append("a blank sets %s back to 0, but the grammar lets blanks stand between prefix operators (`- - - -` ...): such a run is never counted" % ", ".join(bad))
+                break
+    return why
+
+
 def guard_covers_grammar(P, g):
     guards = nesting_guards(P)
     if not guards:
@@ -870,6 +1169,10 @@ def guard_covers_grammar(P, g):
             bad = next((sorted(x) for x in ps if not (x & uncapped)), None)
             worst = "%s counts %s only into %s on some way through its arm, which no comparison limits (limited: %s): levels built with it are not limited" % (
                 gk.split("::")[-1], ", ".join("`%s`" % c for c in unlimited[:6]), bad if bad is not None else "?", sorted(uncapped))
+            continue
+        acc = guard_accounts(P, gk, g)
+        if acc:
+            worst = "%s: %s" % (gk.split("::")[-1], acc[0])
     if worst:
         return False, worst
     return True, "every token with which the grammar adds a level to an expression tree (%d first characters: nesting and chaining) is among the characters the guard counts" % len(toks)
